@@ -532,7 +532,7 @@ func propC19(w *World, r *Report) {
 			for _, in := range pi.p.Instrs {
 				if c, ok := in.(*ssa.Call); ok {
 					if bi, ok := c.Call.Value.(*ssa.Builtin); ok && bi.Name() == "copy" {
-						copies = append(copies, pi.p.Term(e, c.Call.Args[0]).String()+" <= "+pi.p.Term(e, c.Call.Args[1]).String())
+						copies = append(copies, wholeNorm(pi.p.Term(e, c.Call.Args[0])).String()+" <= "+wholeNorm(pi.p.Term(e, c.Call.Args[1])).String())
 					}
 				}
 			}
@@ -542,7 +542,7 @@ func propC19(w *World, r *Report) {
 			var wantRet string
 			switch {
 			case atEnd:
-				wantCopies = []string{"slice(" + ORD + ", 0, len(" + ORD + ")) <= slice(" + FR + ", 0, len(" + FR + "))"}
+				wantCopies = []string{ORD + " <= " + FR}
 				wantRet = ORD
 			case !wrapped:
 				wantCopies = []string{ORD + " <= slice(" + FR + ", 0, " + next + ")"}
@@ -734,7 +734,7 @@ func checkRingHistoryForms(w *World, r *Report, rule string) {
 		for _, in := range p.Instrs {
 			if c, ok := in.(*ssa.Call); ok {
 				if bi, ok := c.Call.Value.(*ssa.Builtin); ok && bi.Name() == "copy" {
-					copies = append(copies, p.Term(e, c.Call.Args[0]).String()+" <= "+p.Term(e, c.Call.Args[1]).String())
+					copies = append(copies, wholeNorm(p.Term(e, c.Call.Args[0])).String()+" <= "+wholeNorm(p.Term(e, c.Call.Args[1])).String())
 				}
 			}
 		}
@@ -744,7 +744,7 @@ func checkRingHistoryForms(w *World, r *Report, rule string) {
 		var wantRet string
 		switch {
 		case containsStr(conds, eqStr("("+N+" + -1)", CUR)):
-			wantCopies, wantRet = []string{"slice(" + ORD + ", 0, len(" + ORD + ")) <= slice(" + FR + ", 0, len(" + FR + "))"}, ORD
+			wantCopies, wantRet = []string{ORD + " <= " + FR}, ORD
 		case !containsStr(conds, FULL):
 			wantCopies, wantRet = []string{ORD + " <= slice(" + FR + ", 0, " + next + ")"}, "slice("+ORD+", 0, "+next+")"
 		default:
@@ -859,4 +859,12 @@ func ringAccessesOutsideLock(fn *ssa.Function) []ssa.Instruction {
 		}
 	}
 	return out
+}
+
+// wholeNorm: x[:] (= x[0:len(x)]) is x.
+func wholeNorm(t *Term) *Term {
+	if t != nil && t.Op == "slice" && len(t.Args) == 3 && t.Args[1].String() == "0" && t.Args[2].String() == "len("+t.Args[0].String()+")" {
+		return wholeNorm(t.Args[0])
+	}
+	return t
 }
